@@ -133,8 +133,8 @@ Proof. exact splice_drop_lazy_example. Qed.
 (* ---- histories ---- *)
 From AV.Model Require Import Interp.
 From AV.Spec Require Import WorldSpec.
-From AV.Proofs Require Import WorldMore WorldProofs.
-(** WHOLE HISTORIES: a lazy clone of an element of another vector (any nesting depth) offered to push or insert - erased or typed path - is a step of the history fragment of AV.Props.C01 ([WorldSpec.sp_offer_lazy]): exactly one Clone call, at the moment of consumption, of exactly the source element's current value; the destination receives the NEW value at the right place, the source vector is untouched; an offer that is refused (source index, insertion index, full fixed capacity) clones nothing.  [C09_lazy_offer_in_histories] proves that the byte-level machine does this at any point of any history (on top of [C09_push] / [C09_insert] through [C09_raw_action_clone]).  The same holds for a lazy clone of a value the CALLER owns (a user-defined cloneable value whose Type is the concrete element type - the only lazily cloned source with a known static type): [WorldSpec.sp_offer_userlazy], [C09_user_lazy_offer_in_histories]; and for lazy clones of a removal handle that are downcast (a new value each time, destroyed by the caller) before the handle is consumed: sink [KLazyDown] of [WorldSpec.sp_sink] (C01_sinks_in_histories).  Lazy clones of another vector's elements consumed by splice as replacement items are a step of the fragment too ([WorldSpec.sp_splice_lazy], [C09_lazy_splice_in_histories]): exactly min(announced, yielded) Clone calls, in order, each of the source element the item was made from, after the drained range is destroyed; a forgotten splice clones nothing and leaks no replacement value; an empty source panics before the range is touched.  Lazy clones of drained elements remain one-step theorems + correspondence. *)
+From AV.Proofs Require Import WorldMore WorldDrain WorldProofs.
+(** WHOLE HISTORIES: a lazy clone of an element of another vector (any nesting depth) offered to push or insert - erased or typed path - is a step of the history fragment of AV.Props.C01 ([WorldSpec.sp_offer_lazy]): exactly one Clone call, at the moment of consumption, of exactly the source element's current value; the destination receives the NEW value at the right place, the source vector is untouched; an offer that is refused (source index, insertion index, full fixed capacity) clones nothing.  [C09_lazy_offer_in_histories] proves that the byte-level machine does this at any point of any history (on top of [C09_push] / [C09_insert] through [C09_raw_action_clone]).  The same holds for a lazy clone of a value the CALLER owns (a user-defined cloneable value whose Type is the concrete element type - the only lazily cloned source with a known static type): [WorldSpec.sp_offer_userlazy], [C09_user_lazy_offer_in_histories]; and for lazy clones of a removal handle that are downcast (a new value each time, destroyed by the caller) before the handle is consumed: sink [KLazyDown] of [WorldSpec.sp_sink] (C01_sinks_in_histories).  Lazy clones of another vector's elements consumed by splice as replacement items are a step of the fragment too ([WorldSpec.sp_splice_lazy], [C09_lazy_splice_in_histories]): exactly min(announced, yielded) Clone calls, in order, each of the source element the item was made from, after the drained range is destroyed; a forgotten splice clones nothing and leaks no replacement value; an empty source panics before the range is touched.  Lazy clones of DRAINED elements are inside the fragment too ([WorldSpec.sp_item], [C09_lazy_clones_of_drained_items], composed over any call pattern by [C02_moving_walk]). *)
 Theorem C09_raw_action_clone :
   forall (c : cfg) (vv : vec) (a : avec) (u : uw) (idx : option N) (bs : mem) (t0 : N) (k : bool),
          cfg_wf c ->
@@ -202,6 +202,36 @@ Theorem C09_lazy_splice_in_histories :
          res_matches c w (exec c (OSplice a vid sb eb pat f (RLazy src) n None claimed) w) r.
 Proof. exact exec_splice_lazy. Qed.
 
+(** a drained item as the source of lazy clones, at any point of any history, nested to any depth: each downcast ([KLazyDown]) and each push into another vector ([KLazy]) is one Clone call of exactly that item's value and makes a new value; the item itself is untouched and then goes wherever the rest of the sink says; a refused push clones nothing more, destroys the item once and unwinds through the iterator *)
+Theorem C09_lazy_clones_of_drained_items :
+  forall (c : cfg) (w : world) (vid : nat) (av : avec) (vv : vec) (s e : nat) (a : api),
+         cfg_wf c ->
+         VI c vv av ->
+         (s <= e)%nat ->
+         (e <= length (a_xs av))%nat ->
+         forall idx : nat,
+         (s <= idx)%nat ->
+         (idx < e)%nat ->
+         forall (sk : sink) (ww : world) (stw : astate) (evs : list event),
+         WalkM c w vid av vv s ww stw evs ->
+         (forall d : nat, d <> vid -> adm_many c ww d (sink_count sk d)) ->
+         let t := nth idx (a_xs av) 0 in
+         match sp_item c vid stw (unext (wuw ww)) t sk with
+         | Some (inl (out, evs0, st1, _, nx1)) =>
+             exists ww' : world,
+               item_sink c vid a (ptr_at c (with_len (N.of_nat s) vv) (N.of_nat idx)) sk ww = Ok out ww' /\
+               WalkM c w vid av vv s ww' st1 (evs ++ evs0) /\
+               unext (wuw ww') = nx1 /\
+               (forall (d : nat) (m : N),
+                d <> vid -> adm_many c ww d (sink_count sk d + m) -> adm_many c ww' d m)
+         | Some (inr (p, evs0, st1, nx1)) =>
+             exists ww' : world,
+               item_sink c vid a (ptr_at c (with_len (N.of_nat s) vv) (N.of_nat idx)) sk ww = Panic p ww' /\
+               WalkM c w vid av vv s ww' st1 (evs ++ evs0) /\ unext (wuw ww') = nx1
+         | None => True
+         end.
+Proof. exact item_mv_spec. Qed.
+
 (* ---- end histories ---- *)
 Print Assumptions C09_push.
 Print Assumptions C09_insert.
@@ -214,3 +244,4 @@ Print Assumptions C09_lazy_offer_in_histories.
 Print Assumptions C09_user_lazy_offer_in_histories.
 Print Assumptions C09_lazy_down_in_histories.
 Print Assumptions C09_lazy_splice_in_histories.
+Print Assumptions C09_lazy_clones_of_drained_items.
